@@ -28,6 +28,11 @@ RULE = ("Substances all carry compositions: synthetic keys with explicit composi
         "coefficients written as floats or Fractions (Reaction(..., dont_check={'all_integral'}) or explicit checks=; "
         "integral floats such as 2.0 with the default checks); the broken variants then include imbalances of 1/16 .. 3/2 "
         "in one key (charge only, one element only; labels 'imbalance<=1/2:*') and coefficients off by 1/8 .. 1.  "
+        "In two tenths of the cases (both sub-checks) one or two substances without elements and charge take part "
+        "(composition {} - a photon -, {0: 0}, or Substance(charge=0, composition={})); explicitly composed charged "
+        "substances, also those of the families, get their charge in the dict or through Substance(charge=), including "
+        "pure charge carriers (Substance('e-', charge=-1, composition={}), holes); every Substance object is first compared "
+        "with the description (composition incl. key 0, .charge).  "
         "The expected verdict is recomputed from the description with exact integer / Fraction arithmetic.  "
         "Non-trivial = (>= 2 reactions and a charged substance) or a charge-only rejection; distinct by case digest.")
 ASSUMPTIONS = [
@@ -95,9 +100,25 @@ def construct(M, case, rxns, subs, **kw):
     return M["ReactionSystem"](rxns, subs, **kw)
 
 
+def check_substances(ctx, case, subs):
+    """Every Substance object carries the composition of the description: composition (incl. key 0) and .charge."""
+    ok = True
+    for s in case["subs"]:
+        want = {int(k): v for k, v in s["comp"].items()}
+        obj = subs[s["key"]]
+        if obj.composition != want:
+            ctx.fail("substance_composition", key=s["key"], how=s["how"], charge_arg=bool(s.get("charge_arg")),
+                     got=short(repr(obj.composition), 200), expected={str(k): v for k, v in want.items()})
+            ok = False
+        elif obj.charge != want.get(0, 0):
+            ctx.fail("substance_charge", key=s["key"], got=repr(obj.charge), expected=want.get(0, 0))
+            ok = False
+    return ok
+
+
 def describe(case, ctx):
     subs = case["subs"]
-    charged = any("0" in s["comp"] for s in subs)
+    charged = any(s["comp"].get("0") for s in subs)
     ctx.label("kind=" + case["kind"], case["cls"], "nr=%d" % min(len(case["rxns"]), 6), "ns=%d" % min(len(subs), 8))
     if charged:
         ctx.label("charged")
@@ -105,6 +126,15 @@ def describe(case, ctx):
     ctx.label(*("how=" + h for h in sorted(hows)))
     if any(s.get("charge_arg") for s in subs):
         ctx.label("charge_via_argument")
+        for s in subs:
+            if s.get("charge_arg") and set(s["comp"]) == {"0"}:
+                q = s["comp"]["0"]
+                ctx.label("charge_via_argument_with_empty_composition:" + ("negative" if q < 0 else "positive" if q else "zero"))
+    if any(not any(s["comp"].values()) for s in subs):
+        ctx.label("massless_substance", *("massless:composition=" + ("{}" if not s["comp"] else "{0: 0}")
+                                          for s in subs if not any(s["comp"].values())))
+    if any(s["comp"].get("0") and set(s["comp"]) == {"0"} for s in subs):
+        ctx.label("pure_charge_substance")
     if any(rx["ireac"] or rx["iprod"] for rx in case["rxns"]):
         ctx.label("inactive_coeff")
     if any(set(rx["reac"]) & set(rx["prod"]) for rx in case["rxns"]):
@@ -158,6 +188,8 @@ def check_admit(case, ctx):
         if big < 1:
             ctx.label("imbalance<=1/2:" + which if 2 * big <= 1 else "imbalance<1:" + which)
     subs = make_substances(M, case)
+    if not check_substances(ctx, case, subs):
+        return
     eqsys = case.get("route") == "eqsys"
     if eqsys:
         ctx.label("route=EqSystem")
@@ -172,7 +204,9 @@ def check_admit(case, ctx):
             ctx.fail("check_balance_false_for_balanced")
         if res.obeys_charge_neutrality() is not True:      # integer or dyadic charges and coefficients: exact in floats
             ctx.fail("obeys_charge_neutrality_false_for_balanced")
-        if eqsys and ref is not None:
+        if eqsys and ref is not None and ref[1]:
+            # (without any composition key there is no total to report: composition_conservation is not called - on such a
+            # system it raises ValueError from numpy.dot on the empty matrix, a loud refusal outside the statement)
             # EqSystem.composition_conservation: totals of small integer vectors are exact in floating point
             Bref, ck = ref
             c1 = [(3 * i + 1) % 7 for i in range(len(subs))]
@@ -250,6 +284,13 @@ def check_dynamics(case, ctx):
     od, extra = M["get_odesys"](rsys, include_params=False)
     if list(od.names) != keys:
         ctx.fail("names_order", got=list(od.names), expected=keys)
+        return
+    if not ck:
+        # every substance is without elements and charge: there is no composition vector, nothing to conserve
+        # (chempy hands linear_invariants=None to the ODE system then)
+        ctx.label("no_composition_keys")
+        if od.linear_invariants is not None and len(od.linear_invariants) != 0:
+            ctx.fail("linear_invariants_without_composition_keys", got=repr(od.linear_invariants)[:200])
         return
     # -- linear invariants handed to the ODE system -----------------------------------------------------
     for what, o in (("get_odesys", od), ("_create_odesys", M["_create_odesys"](rsys, symbolic_kw=dict(jac=False, dfdx=False))[0])):
@@ -358,11 +399,11 @@ def check_dynamics(case, ctx):
 
 
 SUBCHECKS = [
-    SubCheck("admit", check_admit, strategy=G.composed_systems(max_rxn=6, dyadic_share=4), quick=2000, thorough=60000,
+    SubCheck("admit", check_admit, strategy=G.composed_systems(max_rxn=6, dyadic_share=4, massless_share=2), quick=2000, thorough=60000,
              rule="1-6 reactions, one of them possibly broken; constructor verdict, error message, check_balance, "
                   "composition_balance_vectors, charge/mass violation helpers",
              tolerances={"mass_balance_rel_sum_abs": TOL_MASS}),
-    SubCheck("dynamics", check_dynamics, strategy=G.composed_systems(max_rxn=5, broken=False, kinetics=True), quick=400,
+    SubCheck("dynamics", check_dynamics, strategy=G.composed_systems(max_rxn=5, broken=False, kinetics=True, massless_share=2), quick=400,
              thorough=10000,
              rule="balanced systems with rate constants 1e-4..1e3, y0 in {0..3}: linear_invariants of both builders, "
                   "symbolic B*f == 0, scipy integration (atol=rtol=1e-9), linear_dependencies() and (preferred)",
